@@ -49,6 +49,20 @@ def standard_template():
     return _template["std"]
 
 
+def template_requests():
+    """The requests that build the standard template, as C13-style request specs (so that a check
+    can judge them like any other case when the template cannot be built)."""
+    reqs = []
+    for t in H.OBJECT_TYPES:
+        states = F.STATES if t in F.HAS_STATE else ["NONE"]
+        for st in states:
+            extra = [["Name", "n-%s-%s" % (t, st)], ["Object Group", "g1"],
+                     ["Application Specific Information", {"ns": "ns1", "data": "d-%s" % t}]]
+            reqs.append({"who": "alice", "v": [1, 2], "items": [F.register_item(t, label="%s-%s" % (t, st), extra_attrs=extra)]})
+    reqs.append({"who": "bob", "v": [1, 2], "items": [F.create_item()]})
+    return reqs
+
+
 def fresh_server():
     db, idx = standard_template()
     return H.Server(template=db), idx
